@@ -890,10 +890,17 @@ impl Rasn {
                         None => s,
                     }
                 }
+                let mut wrappers = supertypes.clone();
+                // a SEQUENCE or SET value is constructed by its root type, which is the
+                // innermost supertype and not a wrapper around the value
+                let root_type = matches!(**value, ASN1Value::LinkedStructLikeValue(_))
+                    .then(|| wrappers.pop())
+                    .flatten()
+                    .map(|root| self.to_rust_title_case(&root));
                 Ok(nester(
                     self,
-                    self.value_to_tokens(value, type_name)?,
-                    supertypes.clone(),
+                    self.value_to_tokens(value, root_type.as_ref().or(type_name))?,
+                    wrappers,
                 ))
             }
             ASN1Value::LinkedIntValue {
